@@ -30,7 +30,7 @@ try:
     demo = demo[0]
     tests = re.findall(r"^func (Test\w+)\(", open(os.path.join(src, demo)).read(), re.M)
     runre = "^(" + "|".join(tests) + ")$"
-    extra = "-race" if "race" in open(os.path.join(src, "README.md")).read().lower() and pid == "C08" else ""
+    extra = "-race" if "race" in open(os.path.join(src, "README.md")).read().lower() and pid == "C08" and not os.environ.get("NO_RACE") else ""
     democmd = f"go test {extra} -vet=off -count=1 -run '{runre}' ./{demodir}/"
     if mainprog:
         democmd = f"go run ./{demodir}"
